@@ -113,3 +113,65 @@ func ZzvC16ProxyTwin() {
 	zzverif.Assert(lim.TotalEvicted() == 0, "twin: nothing is ever evicted (false)")
 	zzverif.Reach("end")
 }
+
+// ---- two evictors at the same time ------------------------------------------------------------------
+//
+// A second goroutine that runs entirely while the first one is inside its (slow) eviction API call is a
+// legal schedule of two concurrent evictions. It is expressed here without threads: the fake evict plugin
+// issues the second eviction re-entrantly from inside the first call. Locks are modelled (a path that
+// would block on a held mutex is discarded), so the schedule is only explored where the real code admits
+// it. Native replay runs the same single-goroutine schedule.
+
+type zzvNestedPlugin struct {
+	e      *evictorProxy
+	second *corev1.Pod
+	depth  int
+	issued []*corev1.Pod
+}
+
+func (p *zzvNestedPlugin) Name() string { return "zzv-nested" }
+func (p *zzvNestedPlugin) Evict(ctx context.Context, pod *corev1.Pod, o framework.EvictOptions) bool {
+	p.depth++
+	if p.depth == 1 && p.second != nil {
+		p.e.Evict(ctx, p.second, o) // the other goroutine, start to finish
+	}
+	p.issued = append(p.issued, pod)
+	return true
+}
+
+// ZzvC16ProxyRace: two evictions through evictorProxy.Evict with the real EvictionLimiter, the second one
+// running while the first is inside the evict plugin.
+func ZzvC16ProxyRace() {
+	perNode, hasNode, capNode := zzvCap("capNode")
+	perNs, hasNs, capNs := zzvCap("capNamespace")
+	total, hasTotal, capTotal := zzvCap("capTotal")
+	lim := evictions.NewEvictionLimiter(perNode, perNs, total)
+	nodes := []string{"n0", "n1"}
+	nss := []string{"a", "b"}
+	mk := func(i int) *corev1.Pod {
+		is := strconv.Itoa(i)
+		return &corev1.Pod{ObjectMeta: metav1.ObjectMeta{Namespace: nss[zzverif.Choice("ns"+is, 2)], Name: "p" + is}, Spec: corev1.PodSpec{NodeName: nodes[zzverif.Choice("node"+is, 2)]}}
+	}
+	p1, p2 := mk(1), mk(2)
+	plugin := &zzvNestedPlugin{second: p2}
+	e := &evictorProxy{evictionLimiter: lim, handle: &frameworkImpl{evictPlugins: []framework.EvictPlugin{plugin}}}
+	plugin.e = e
+	e.Evict(context.TODO(), p1, framework.EvictOptions{})
+	byNode, byNs := map[string]uint64{}, map[string]uint64{}
+	for _, p := range plugin.issued {
+		byNode[p.Spec.NodeName]++
+		byNs[p.Namespace]++
+	}
+	if len(plugin.issued) == 2 {
+		zzverif.Reach("both-evictions-issued")
+	}
+	for _, n := range nodes {
+		zzverif.Assert(zzverif.Implies(hasNode, byNode[n] <= capNode), "evictions per node never exceed the cap, no matter how many evict at the same time")
+	}
+	for _, ns := range nss {
+		zzverif.Assert(zzverif.Implies(hasNs, byNs[ns] <= capNs), "evictions per namespace never exceed the cap, no matter how many evict at the same time")
+	}
+	zzverif.Assert(zzverif.Implies(hasTotal, uint64(len(plugin.issued)) <= capTotal), "evictions in total never exceed the cap, no matter how many evict at the same time")
+	zzverif.Assert(uint64(lim.TotalEvicted()) == uint64(len(plugin.issued)), "the total counter equals the evictions issued")
+	zzverif.Reach("end")
+}
